@@ -10,6 +10,7 @@ from __future__ import annotations
 
 import ast
 import copy
+import os
 from dataclasses import dataclass, field
 from typing import Any, Callable, Dict, List, Optional, Sequence, Tuple, Union
 
@@ -1159,15 +1160,25 @@ class Executor:
         heap0 = dict(sub.heap)
         try:
             outs = self.eval(node, sub)
-        except (Unsupported, SidecarError):
+        except (Unsupported, SidecarError) as e:
+            if os.environ.get("PYVC_DEBUG"):
+                print("eval_pure: unsupported:", ast.unparse(node)[:80], e)
             return None
         outs = [o for o in outs if self.feasible(o[0])]
+        if len(outs) > 1:
+            # exceptional branches that the class invariants exclude (needs the full solver)
+            outs = [o for o in outs if o[1] == "val" or not self.definitely_infeasible(o[0])]
         if len(outs) != 1 or outs[0][1] != "val":
+            if os.environ.get("PYVC_DEBUG"):
+                print("eval_pure: not pure:", ast.unparse(node)[:80], [(k, str(v)[:60]) for _, k, v in outs])
             return None
         so, _, v = outs[0]
         for hn, arr in so.heap.items():
-            if hn not in heap0 or not arr.eq(heap0[hn]):
+            before = heap0[hn] if hn in heap0 else T.heap0(hn)  # a heap array first read here
+            if not arr.eq(before):
                 return None
+        for hn, arr in so.heap.items():
+            st.heap.setdefault(hn, arr)
         for f in so.pc[n0:]:
             st.assume(z3.Implies(guard, f))
         return v
@@ -1488,7 +1499,9 @@ class Executor:
 
     def expr_BinOp(self, node, st):
         outs = []
-        if isinstance(node.op, (ast.Sub, ast.BitAnd, ast.BitOr)) and (self._keys_base(node.left) is not None or self._keys_base(node.right) is not None):
+        kinds_ = getattr(self.contract, "kinds", {})
+        set_operands = ast.unparse(node.left) in kinds_ and ast.unparse(node.right) in kinds_ and kinds_[ast.unparse(node.left)] in ("set", "dict") and kinds_[ast.unparse(node.right)] in ("set", "dict")
+        if isinstance(node.op, (ast.Sub, ast.BitAnd, ast.BitOr)) and (self._keys_base(node.left) is not None or self._keys_base(node.right) is not None or set_operands):
             # d.keys() - s, s & d.keys(), s | d.keys(): a fresh set defined by membership
             lnode = self._keys_base(node.left) or node.left
             rnode = self._keys_base(node.right) or node.right
@@ -1583,6 +1596,11 @@ class Executor:
         from .calls import eval_listcomp
 
         return eval_listcomp(self, node, st)
+
+    def expr_SetComp(self, node, st):
+        from .calls import eval_setcomp
+
+        return eval_setcomp(self, node, st)
 
     def expr_GeneratorExp(self, node, st):
         raise Unsupported("generator expression outside a supported call")
